@@ -190,7 +190,7 @@ def fragN (c ap : Bool) : Node → Bool
   | .boolean t => t.type == .TRUE || t.type == .FALSE
   | .control t => t.type == .BREAK || t.type == .CONTINUE
   | .pre t r => preOp t.type && fragO c ap r
-  | .post t p => (t.type == .INCR || t.type == .DECR) && p.type == .IDENT
+  | .post t p => (t.type == .INCR || t.type == .DECR) && (p.type == .IDENT || p.type == .DOTDOT)
   | .infix t l r =>
     binOp t.type && fragO c ap l &&
       (match r with
@@ -200,9 +200,8 @@ def fragN (c ap : Bool) : Node → Bool
   | .array t es => t == ⟨.LBRACKET, [91]⟩ && fragL c ap es
   | .builtin t ps => builtinOp t.type && fragL c ap ps
   | .index t l i =>
-    -- `a.(..)` is printed `a...`, which the lexer reads `a` `..` `.` (recorded class "dotdot-after-dot")
     fragO c ap l &&
-      (if t.type == .LBRACKET then fragIdx c ap i else t.type == .DOT && !isDotDot i && fragO c ap i)
+      (if t.type == .LBRACKET then fragIdx c ap i else t.type == .DOT && fragO c ap i)
   | .func t name params body variadic isLambda =>
     if isLambda then t == ⟨.LAMBDA, [61, 62]⟩ && name.isNone && lambdaParamsOK variadic params && fragB c ap body
     else t.type == .FUNC && (match name with | some nm => nm.type == .IDENT | none => true) &&
